@@ -105,11 +105,12 @@ def run_case(case):
     ext = case["out"]
     out1, out2 = os.path.join(d, f"out1.{ext}"), os.path.join(d, f"out2.{ext}")
     prefix = os.path.join(d, "dbg")
-    params = [f"gap={case['gap']}", f"max_minor_solutions={case['mms']}"]
-    common = ["-g", gene_arg, "--genome", build, "-s", "cbc"]
+    params = [f"gap={case['gap']}", f"max_minor_solutions={case['mms']}"] + list(case.get("xparams") or [])
+    common = ["-g", gene_arg, "--genome", build, "-s", "cbc"] + (["--cn", "1,1"] if case.get("user_cn") else [])
     pargs = [x for p in params for x in ("--param", p)]
     labels = [f"genes:{len(dbs)}", f"out:{ext}", f"gap:{case['gap']}", "indel" if indel else "noindel", f"copies:{ncopies}",
-              "neutral-hole" if case.get("neutral_hole") else "neutral-full", f"odd-reads:{case.get('odd', 0)}"]
+              "neutral-hole" if case.get("neutral_hole") else "neutral-full", f"odd-reads:{case.get('odd', 0)}",
+              "user-structure" if case.get("user_cn") else "called-structure"] + [f"param:{x.split('=')[0]}" for x in case.get("xparams") or []]
     viol = []
 
     code, recs = cli_util.run_main(["genotype", bam, "-p", pbam, "-n", region, "--debug", prefix, "-o", out1] + common + pargs)
@@ -125,6 +126,11 @@ def run_case(case):
         viol.append(V("output-file-differs:" + ext, diff=diff, code=(code, code2), log=recs2[-3:]))
     # API level
     kw = dict(genome=build, solver="cbc", gap=case["gap"], max_minor_solutions=case["mms"])
+    if case.get("user_cn"):
+        kw["cn_solution"] = ["1", "1"]
+    for x in case.get("xparams") or []:
+        k_, v_ = x.split("=")
+        kw[k_] = v_  # strings, as the command line hands them over
     try:
         r1 = summarize(genotype(gene_arg, bam, pbam, output_file=None, cn_region=cnr, **kw))
     except AldyException as e:
@@ -163,6 +169,10 @@ def strategy(tier):
         "db2": st.none() | gen_db.db_specs(small=True),
         "odd": st.sampled_from([0, 2, 5]),
         "neutral_hole": st.sampled_from([0, 0, 7, 60]),
+        # a user-supplied structure and the parameters that are not stored in the archive's profile
+        "user_cn": st.sampled_from([False, False, False, True]),
+        "xparams": st.sampled_from([[], [], ["display_format=true"], ["min_avg_coverage=1000"], ["min_avg_coverage=0.5"],
+                                    ["debug_novel=true"], ["display_format=true", "min_avg_coverage=3"]]),
     }
     return st.fixed_dictionaries(base)
 
@@ -188,22 +198,24 @@ def run_na10860(case):
     out1, out2 = os.path.join(d, "out1.aldy"), os.path.join(d, "out2.aldy")
     pargs = ["--param", "minor_phase_vars=10", "--param", f"gap={case['gap']}", "--param", "max_minor_solutions=1"]
     common = ["-g", "cyp2d6", "-s", "cbc"]
-    code, recs = cli_util.run_main(["genotype", bam, "-p", "illumina", "--debug", prefix, "-o", out1] + common + pargs)
+    prof = case.get("profile", "illumina")
+    code, recs = cli_util.run_main(["genotype", bam, "-p", prof, "--debug", prefix, "-o", out1] + common + pargs)
     arch = prefix + ".tar.gz"
     viol = []
     if not os.path.exists(arch):
         return Result([V("no-archive-written", code=code, log=recs[-3:])], ["shipped-bam"], True)
-    cli_util.run_main(["genotype", arch, "-o", out2] + common + pargs)
+    # "the same parameters": a named profile that is more than depth data (exome = no structure calling) is named again
+    cli_util.run_main(["genotype", arch, "-o", out2] + (["-p", prof] if "profile" in case else []) + common + pargs)
     t1 = open(out1).read() if os.path.exists(out1) else None
     t2 = open(out2).read() if os.path.exists(out2) else None
     if t1 != t2:
         viol.append(V("output-file-differs:aldy", file=case["file"]))
     kw = dict(solver="cbc", gap=case["gap"], max_minor_solutions=1, minor_phase_vars=10)
-    r1 = summarize(genotype("cyp2d6", bam, "illumina", output_file=None, **kw))
-    r2 = summarize(genotype("cyp2d6", arch, None, output_file=None, **kw))
+    r1 = summarize(genotype("cyp2d6", bam, prof, output_file=None, **kw))
+    r2 = summarize(genotype("cyp2d6", arch, prof if "profile" in case else None, output_file=None, **kw))
     if r1 != r2:
         viol.append(V("api-result-differs:solutions", detail=str({"bam": r1, "archive": r2})[:1200], file=case["file"]))
-    return Result(viol, ["shipped-bam:" + case["file"], f"gap:{case['gap']}"], True)
+    return Result(viol, ["shipped-bam:" + case["file"], f"gap:{case['gap']}", "profile:" + prof], True)
 
 
 _gen_run_case = run_case
@@ -216,7 +228,7 @@ def run_case(case):  # noqa
 
 
 def enum_cases(tier):
-    cases = [{"kind": "na10860", "file": "NA10860.bam", "gap": 0}]
+    cases = [{"kind": "na10860", "file": "NA10860.bam", "gap": 0}, {"kind": "na10860", "file": "NA10860.bam", "gap": 0, "profile": "exome"}]
     if tier != "quick":
         cases += [{"kind": "na10860", "file": "NA10860_hg38.bam", "gap": 0}, {"kind": "na10860", "file": "NA10860.bam", "gap": 0.1}]
     return cases
